@@ -21,6 +21,7 @@ DECIDED = [
     "on reschedule by a value unrelated to the previous grid (def-use rule for the cadence)",
     "R-C06-FIRST: (no due time is carried as timedelta.seconds without .days - whole days are not dropped;) the job's deferred_until reaches delay_until, and compute_next_execution_time returns delay_until "
     "first while it is still ahead",
+    "R-C06-ONE (reuse): every iteration ends in an outcome (C02's CATCH) and a finished iteration is not also handed back at shutdown (C03's SHUTDOWN)",
 ]
 NOT_DECIDED = ["the period arithmetic itself (strictly in the future, at most one period ahead): runtime values, see C19"]
 ASSUMPTIONS = ["exactly-one-requeue per run relies on C02 (one disposition) and C01 (requeue replaces the held message)"]
